@@ -52,6 +52,13 @@ def build_tree(tree, full, ctl_names=True):
     # long paths: three nested names of 80 two-byte characters (a percent-encoded URL of well over 1024 bytes), a name of 255 bytes
     tree.write("long/" + "\xe9" * 80 + "/" + "\xfc" * 80 + "/" + "\xf1" * 80 + "/deep.txt", b"deep\n")
     tree.write("long/" + "n" * 255, b"255\n")
+    # thirteen nested names of 120 non-UTF-8 bytes: 1.6 KiB on disk, a percent-encoded link of more than 4 KiB
+    tree.write(b"long13/" + b"/".join(bytes([0xe0 + k]) * 120 for k in range(13)) + b"/bottom.txt", b"bottom\n")
+    # a mailbox and a Maildir whose names are as long as a name can be (255 bytes): their messages are virtual selectors below them
+    tree.write("mail/" + "m" * 250 + ".mbox", trees.MBOX)
+    tree.write("mail/" + "d" * 255 + "/cur/1:2,S", b"Subject: long maildir\n\nbody\n")
+    tree.mkdir("mail/" + "d" * 255 + "/new")
+    tree.mkdir("mail/" + "d" * 255 + "/tmp")
     if full:
         trees.add_full_list_content(tree)
         os.chmod(tree.path("hello.pyg"), 0o755)
